@@ -337,12 +337,19 @@ fn run(ctx: &mut Ctx) {
     let mut job = 0u64;
     run_sweep_family(ctx, &mut job);
     run_recordings(ctx, &mut job);
+    // -u through the real binary with a moving clock: the table must not depend on the refresh interval
+    if crate::engine::cli::available().is_ok() {
+        super::clitimed::run_all(ctx, "C19", 700_000);
+    }
     ctx.sample(|| json!({"pair": ["default", "default + -c"], "history": ["A:DF11 CA5", "B:TC19 v1"], "expected": "bit-identical tables after every step"}));
     ctx.sample(|| json!({"pair": ["default", "-U"], "history": ["A:TC11 even p1", "tick 4000 ms", "A:TC11 odd p1", "A:TC19 v1"], "expected": "equal callsign/altitude/squawk/position/speed/track/vrate/category/status"}));
     ctx.out.exhaustive = true;
 }
 
 fn replay(ctx: &mut Ctx, case: &Value) {
+    if super::clitimed::replay(ctx, "C19", case) {
+        return;
+    }
     let path: Vec<usize> = case.get("path").and_then(|p| p.as_array()).map(|a| a.iter().filter_map(|x| x.as_u64().map(|v| v as usize)).collect()).unwrap_or_default();
     let depth = case.get("depth").and_then(|x| x.as_u64()).unwrap_or(3) as usize;
     match case.get("kind").and_then(|x| x.as_str()) {
